@@ -108,7 +108,8 @@ pub struct CompSpec {
     #[serde(default)]
     pub fw: Vec<u8>,
     /// generic wrappers taken by reference: (wrapper kind 0 = `GS<T>` singleton, 1 = `GR<T>`
-    /// request-scoped, 2 = `GT<T>` transient; index of the type `T` it is instantiated with). Each
+    /// request-scoped, 2 = `GT<T>` transient, 3 = `GV<'a, T>` request-scoped and holding `&'a T`;
+    /// index of the type `T` it is instantiated with). Each
     /// wrapper kind has ONE generic constructor `fn g<T>(inner: &T) -> G<T>` registered in the root blueprint.
     #[serde(default)]
     pub gens: Vec<(u8, usize)>,
